@@ -151,9 +151,91 @@ def fnum(v):
     return repr(float(v))
 
 
+# ---- lexical variants: SHELXL is case-insensitive and reads numbers in free format -------------------------------------
+REAL_STYLES = ('plain', 'exp', 'EXP', 'exp+', 'dot', 'plus', 'trail', 'zero')
+INT_STYLES = ('plain', 'plus')
+
+
+def spell(v, style):
+    """the number `v` written in one of the spellings free-format input accepts; always denotes exactly float(v)"""
+    from decimal import Decimal
+    plain = fnum(v)
+    if isinstance(v, int) and style not in INT_STYLES:
+        style = 'plain'
+    out = plain
+    if style in ('exp', 'EXP', 'exp+'):
+        d = Decimal(plain)
+        if d == 0:
+            out = '0.0E0'
+        else:
+            sign, digits, e = d.normalize().as_tuple()
+            mant = ''.join(map(str, digits))
+            e10 = e + len(mant) - 1
+            mant = mant[0] + ('.' + mant[1:] if len(mant) > 1 else '.0')
+            es = f'{e10}' if (style != 'exp+' or e10 < 0) else f'+{e10}'
+            out = ('-' if sign else '') + mant + ('e' if style == 'exp' else 'E') + es
+    elif style == 'dot':
+        if plain.startswith('0.'):
+            out = plain[1:]
+        elif plain.startswith('-0.'):
+            out = '-' + plain[2:]
+    elif style == 'plus':
+        if not plain.startswith('-'):
+            out = '+' + plain
+    elif style == 'trail':
+        out = plain + ('.' if '.' not in plain and 'e' not in plain.lower() else '0')
+    elif style == 'zero':
+        if 'e' not in plain.lower():
+            out = ('-0' + plain[1:]) if plain.startswith('-') else ('0' + plain)
+    if float(out) != float(v):
+        raise RuntimeError(f'spelling {style} of {v!r} -> {out!r} changes the value')
+    return out
+
+
+def kw_case(kw, how):
+    if how == 'lower':
+        return kw.lower()
+    if how == 'mixed':
+        return ''.join(c.lower() if i % 2 else c.upper() for i, c in enumerate(kw))
+    if how == 'title':
+        return kw[:1].upper() + kw[1:].lower()
+    return kw
+
+
+def make_lex(rng, rep, ps, defs=None):
+    """lexical style of repetition `rep`: 0 = canonical (upper case, plain decimals); 1 = lower case, exponent notation;
+    2 = mixed case, a random mix of the other spellings; >= 3 = everything random"""
+    if rep == 0:
+        return None
+
+    def styles(vals):
+        if rep == 1:
+            return [('plain' if isinstance(v, int) else rng.choice(['exp', 'EXP', 'exp+'])) for v in vals]
+        if rep == 2:
+            return [rng.choice(INT_STYLES if isinstance(v, int) else ('dot', 'plus', 'trail', 'zero', 'dot', 'trail')) for v in vals]
+        return [rng.choice(INT_STYLES if isinstance(v, int) else REAL_STYLES) for v in vals]
+    how = {1: 'lower', 2: 'mixed'}.get(rep) or rng.choice(['upper', 'lower', 'mixed', 'title'])
+    lex = dict(kw=how, spell=styles(ps))
+    if defs is not None:
+        lex['defs_kw'] = how if rep < 3 else rng.choice(['upper', 'lower', 'mixed'])
+        lex['defs_spell'] = styles(defs)
+    return lex
+
+
+def nums_text(vals, styles):
+    styles = list(styles or []) + ['plain'] * len(vals)
+    return [spell(v, st) for v, st in zip(vals, styles)]
+
+
 def line_of(case):
-    kw = case['kw'] + case.get('suffix', '')
-    return ' '.join([kw] + [fnum(v) for v in case['ps']] + list(case.get('names', [])))
+    lex = case.get('lex') or {}
+    kw = kw_case(case['kw'], lex.get('kw', 'upper')) + case.get('suffix', '')
+    return ' '.join([kw] + nums_text(case['ps'], lex.get('spell')) + list(case.get('names', [])))
+
+
+def defs_line(case):
+    lex = case.get('lex') or {}
+    return ' '.join([kw_case('DEFS', lex.get('defs_kw', 'upper'))] + nums_text(case['defs'], lex.get('defs_spell')))
 
 
 def render(case):
@@ -168,7 +250,7 @@ def render(case):
             ins if kw == 'UNIT' else 'UNIT 8 16 4']
     body = []
     if case.get('defs') is not None:
-        body.append(' '.join(['DEFS'] + [fnum(v) for v in case['defs']]))
+        body.append(defs_line(case))
     if kw not in ('CELL', 'ZERR', 'LATT', 'UNIT', 'HKLF', 'AFIX', 'PART', 'L.S.', 'CGLS'):
         body.append(ins)
     body.append(ins if kw in ('L.S.', 'CGLS') else 'L.S. 10')
@@ -228,7 +310,7 @@ def constructor_exception(case, cls):
         from shelxfile.shelx import cards
         shx = Shelxfile()
         if case.get('defs') is not None:
-            shx.defs = cards.DEFS(shx, ['DEFS'] + [fnum(v) for v in case['defs']])
+            shx.defs = cards.DEFS(shx, defs_line(case).split())
         getattr(cards, cls)(shx, line_of(case).split())
     except Exception as e:
         return type(e).__name__
@@ -338,6 +420,7 @@ def evaluate(ctx, cases, stream=None):
     for c in cases:
         by.setdefault(c.get('stream', stream or 'attrs'), []).append(c)
     if 'attrs' in by:
+        check_lex(ctx, by['attrs'])
         eval_attrs(ctx, syn, by['attrs'])
     if 'set' in by:
         eval_set(ctx, syn, by['set'])
@@ -347,38 +430,113 @@ def evaluate(ctx, cases, stream=None):
         eval_wght(ctx, syn, by['wght'])
 
 
+def impl_meets(case, r, attrs) -> bool:
+    """implementation vs spec for one case, verdict only (used to attribute a failure to a lexical dimension)"""
+    try:
+        shx, obj, reached = read_obj(case)
+    except Exception:
+        return False
+    if obj is None or type(obj).__name__ != r['cls']:
+        return (not attrs or len(case['ps']) == 0) and reached and case['kw'] in BARE_NO_OBJECT
+    got = dump_attrs(obj, attrs)
+    if not all(meets(got[a], r['spec'][a]) for a in attrs):
+        return False
+    if case.get('names') and hasattr(obj, 'atoms') and list(obj.atoms) != list(case['names']):
+        return False
+    return True
+
+
+def check_lex(ctx, cases):
+    """every generated spelling is a number of the specification's free-format grammar (`isFreeNumber`, else the generator
+    left the domain) and the model of Command._parse_line's test (`cmdIsNum`) classifies it as numeric; names are words"""
+    nums, words = set(), set()
+    for c in cases:
+        lex = c.get('lex') or {}
+        nums.update(nums_text(c['ps'], lex.get('spell')))
+        if c.get('defs') is not None:
+            nums.update(nums_text(c['defs'], lex.get('defs_spell')))
+        words.update(c.get('names', []))
+    toks = sorted(nums) + sorted(words)
+    if not toks:
+        return
+    ans = ctx.driver.one(dict(p='C16', op='lex', toks=toks))
+    for t, r in zip(toks, ans):
+        want = t in nums
+        if r['spec'] != want:
+            raise RuntimeError(f'generator left the domain: token {t!r} free-format number = {r["spec"]}')
+        if r['model'] != want:
+            raise RuntimeError(f'model cmdIsNum({t!r}) = {r["model"]} differs from the specification (theorem free_number_is_numeric)')
+
+
 def eval_attrs(ctx, syn, cases):
     ctx.stream('attrs')
     ctx.stream('slot')
     ans = ctx.driver.batch([req_attrs(c) for c in cases])
-    for case, r in zip(cases, ans):
+    pending = []
+
+    def fail(sig, what, payload, kind='property'):
+        pending.append((sig, what, payload, kind))
+
+    def flush(case, r, attrs):
+        """report the collected failures of one case; for a lexical variant say which dimension is to blame and
+        store the reduced case (canonical spelling where the spelling is innocent) as the replay"""
+        if not pending:
+            return
+        suffix, red = '', case
+        if case.get('lex') and any(k == 'property' for _, _, _, k in pending):
+            lex = case['lex']
+            canon = {k: v for k, v in case.items() if k != 'lex'}
+            only_case = dict(canon, lex={k: v for k, v in lex.items() if k in ('kw', 'defs_kw')})
+            only_spell = dict(canon, lex={k: v for k, v in lex.items() if k in ('spell', 'defs_spell')})
+            if impl_meets(canon, r, attrs):
+                bc, bs = not impl_meets(only_case, r, attrs), not impl_meets(only_spell, r, attrs)
+                suffix = '|lex=' + ('case' if bc and not bs else 'spelling' if bs and not bc else 'case+spelling')
+                red = only_case if bc and not bs else only_spell if bs and not bc else case
+            else:
+                red = canon
+        for sig, what, payload, kind in pending:
+            if kind == 'property' and not sig.startswith('C16|slot'):
+                payload = dict(payload, case=dict(red, stream='attrs'))
+                sig += suffix
+            ctx.fail(sig, what, payload, kind)
+        pending.clear()
+
+    prev = None
+    for case, r in list(zip(cases, ans)) + [(None, None)]:
+        if prev is not None:
+            flush(*prev)
+        if case is None:
+            break
         kw = case['kw']
         sp = syn[kw]
         n = len(case['ps'])
         dtag = 'defs' if case.get('defs') is not None else 'nodefs'
         base = f'C16|attrs|kw={kw}'
         attrs = [p['attr'] for p in sp['params'] if not p['attr'].startswith('_')]
+        prev = (case, r, attrs)
         shx, obj, reached = read_obj(case)
+        lex = case.get('lex') or {}
         ctx.count(['attrs', case], nontrivial=(len(sp['params']) > 1 or case.get('defs') is not None or n > 0),
-                  sample=dict(stream='attrs', line=line_of(case), defs=case.get('defs')),
-                  tags=[f'kw={kw}', f'form={n}', dtag, 'table' if r['table'] else 'residual'])
+                  sample=dict(stream='attrs', line=line_of(case), defs=(defs_line(case) if case.get('defs') is not None else None)),
+                  tags=[f'kw={kw}', f'form={n}', dtag, 'table' if r['table'] else 'residual', 'case=' + lex.get('kw', 'upper')] +
+                       sorted({'spell=' + st for st in list(lex.get('spell', [])) + list(lex.get('defs_spell', []))}))
         payload = dict(case=dict(case, stream='attrs'), stream='attrs', line=line_of(case), expected=show(r['spec']), model=show(r['model']))
         if not r['form_ok']:
             raise RuntimeError(f'generator left the domain: {line_of(case)} is not a legal form')
         if obj is None or type(obj).__name__ != r['cls']:
             if not reached:
                 exc = constructor_exception(case, r['cls'])
-                ctx.fail(f'{base}|form={n}|abort|{exc}',
+                fail(f'{base}|form={n}|abort|{exc}',
                          f'`{line_of(case)}` is not turned into an object: the constructor raises {exc} and the parse stops there',
                          dict(payload, actual=dict(object=None, reached_end=False, exception=exc)))
             elif n == 0 and kw in BARE_NO_OBJECT:
                 pass     # whole instruction reported as not given
             else:
-                ctx.fail(f'{base}|form={n}|noobject', f'`{line_of(case)}`: no {r["cls"]} object replaces the line',
+                fail(f'{base}|form={n}|noobject', f'`{line_of(case)}`: no {r["cls"]} object replaces the line',
                          dict(payload, actual=dict(object=repr(obj)[:60], reached_end=reached)))
             # correspondence: the model must predict the abort as well
             if isinstance(r['model'], dict) and 'raise' not in r['model'] and not reached:
-                ctx.fail(f'{base}|model|abort', f'`{line_of(case)}`: implementation aborts, model builds an object',
+                fail(f'{base}|model|abort', f'`{line_of(case)}`: implementation aborts, model builds an object',
                          dict(payload, actual='abort'), kind='correspondence')
             continue
         got = dump_attrs(obj, attrs)
@@ -387,62 +545,86 @@ def eval_attrs(ctx, syn, cases):
             sv = r['spec'][a]
             how = 'given' if 'given' in sv else 'omitted'
             if not meets(got[a], sv):
-                what = (f'`{line_of(case)}`' + (f' after `DEFS {" ".join(fnum(v) for v in case["defs"])}`' if case.get('defs') is not None else '') +
+                what = (f'`{line_of(case)}`' + (f' after `{defs_line(case)}`' if case.get('defs') is not None else '') +
                         f': {r["cls"]}.{a} is {got[a]}, the syntax says {how} {show(sv[how])}')
-                ctx.fail(f'{base}|attr={a}|{how}' + ('|defs' if (how == 'omitted' and case.get('defs') is not None and kw in RESTRAINTS) else ''),
+                fail(f'{base}|attr={a}|{how}' + ('|defs' if (how == 'omitted' and case.get('defs') is not None and kw in RESTRAINTS) else ''),
                          what, payload)
             m = r['model']
             if isinstance(m, dict):
                 if 'raise' in m:
-                    ctx.fail(f'{base}|model|raise', f'`{line_of(case)}`: model raises {m["raise"]}, implementation builds the object',
+                    fail(f'{base}|model|raise', f'`{line_of(case)}`: model raises {m["raise"]}, implementation builds the object',
                              payload, kind='correspondence')
                     break
                 mv = m[a]
                 ok = (got[a] == mv) if (isinstance(mv, dict) and 'unset' in mv) else \
                     (not (isinstance(got[a], dict) and ('unset' in got[a] or 'error' in got[a])) and same(got[a], mv))
                 if not ok:
-                    ctx.fail(f'{base}|model|attr={a}', f'`{line_of(case)}`: {r["cls"]}.{a} is {got[a]}, the model says {show(mv)}',
+                    fail(f'{base}|model|attr={a}', f'`{line_of(case)}`: {r["cls"]}.{a} is {got[a]}, the model says {show(mv)}',
                              payload, kind='correspondence')
         # words: the names after the numbers are the atoms, in order
         if case.get('names') and hasattr(obj, 'atoms'):
             if list(obj.atoms) != list(case['names']):
-                ctx.fail(f'{base}|atoms', f'`{line_of(case)}`: atoms {obj.atoms} are not the names written {case["names"]}', payload)
+                fail(f'{base}|atoms', f'`{line_of(case)}`: atoms {obj.atoms} are not the names written {case["names"]}', payload)
         # slot: shx.<kw> holds this object
         slot = SLOT_NAME.get(kw, kw.lower() if kw in SLOTS else None)
         if slot is not None and getattr(shx, slot, None) is not obj:
-            ctx.fail(f'C16|slot|kw={kw}', f'`{line_of(case)}`: shx.{slot} is {getattr(shx, slot, None)!r}, not the object built for the line',
+            fail(f'C16|slot|kw={kw}', f'`{line_of(case)}`: shx.{slot} is {getattr(shx, slot, None)!r}, not the object built for the line',
                      dict(payload, stream='attrs', actual=dict(slot=repr(getattr(shx, slot, None))[:60])))
+
+
+def set_steps(case):
+    """the history of a set case: successive texts handed to Command.set() on the SAME object"""
+    if 'steps' in case:
+        return case['steps']
+    return [dict(ps=case['ps2'], lex=case.get('lex2'))]
 
 
 def eval_set(ctx, syn, cases):
     ctx.stream('set')
-    ans = ctx.driver.batch([dict(p='C16', op='attrs', kw=c['kw'], ps=c['ps2'], defs=None) for c in cases])
-    for case, r in zip(cases, ans):
+    flat = [(ci, si, st) for ci, c in enumerate(cases) for si, st in enumerate(set_steps(c))]
+    ans = ctx.driver.batch([dict(p='C16', op='attrs', kw=cases[ci]['kw'], ps=st['ps'], defs=None) for ci, si, st in flat])
+    per = {}
+    for (ci, si, st), r in zip(flat, ans):
+        per.setdefault(ci, []).append((st, r))
+    for ci, case in enumerate(cases):
         kw = case['kw']
         sp = syn[kw]
-        shx, obj, reached = read_obj(dict(kw=kw, ps=case['ps']))
-        new_line = line_of(dict(kw=kw, ps=case['ps2']))
-        ctx.count(['set', case], nontrivial=True, sample=dict(stream='set', before=line_of(case), set=new_line),
-                  tags=['set', f'kw={kw}', f'form={len(case["ps"])}->{len(case["ps2"])}'])
-        payload = dict(case=dict(case, stream='set'), stream='set', before=line_of(case), set=new_line, expected=show(r['spec']))
-        if obj is None or type(obj).__name__ != r['cls']:
+        steps = per[ci]
+        shx, obj, reached = read_obj(dict(kw=kw, ps=case['ps'], lex=case.get('lex')))
+        lines = [line_of(dict(kw=kw, ps=st['ps'], lex=st.get('lex'))) for st, _ in steps]
+        ctx.count(['set', case], nontrivial=True, sample=dict(stream='set', before=line_of(case), set=lines),
+                  tags=['set', f'kw={kw}', 'forms=' + '->'.join(str(len(x)) for x in [case['ps']] + [st['ps'] for st, _ in steps]), f'steps={len(steps)}'])
+        cls = steps[0][1]['cls']
+        if obj is None or type(obj).__name__ != cls:
             continue        # reported by the attrs stream
-        try:
-            obj.set(new_line)
-            text = str(obj)
-        except Exception as e:
-            ctx.fail(f'C16|set|kw={kw}|raise', f'{r["cls"]}.set({new_line!r}) on `{line_of(case)}` raises {type(e).__name__}', dict(payload, actual=type(e).__name__))
-            continue
         attrs = [p['attr'] for p in sp['params'] if not p['attr'].startswith('_')]
-        got = dump_attrs(obj, attrs)
-        payload['actual'] = dict(attrs=got, text=text)
-        for a in attrs:
-            if not meets(got[a], r['spec'][a]):
-                ctx.fail(f'C16|set|kw={kw}|attr={a}', f'after {r["cls"]}.set({new_line!r}): {a} is {got[a]}', payload)
-        toks = tokens_of(text)
-        want = denote(sp, case['ps2'])
-        if text.split()[:1] != [kw] or toks is None or len(toks) not in sp['forms'] or not same_denotation(denote(sp, toks), want):
-            ctx.fail(f'C16|set|kw={kw}|text', f'after {r["cls"]}.set({new_line!r}) the written text is {text!r}, which does not denote {want}', payload)
+        for si, ((st, r), new_line) in enumerate(zip(steps, lines)):
+            hist = [line_of(case)] + lines[:si]
+            # the replay is the history up to the failing step
+            payload = dict(case=dict({k: v for k, v in case.items() if k not in ('ps2', 'lex2', 'steps')}, steps=[x for x, _ in steps[:si + 1]], stream='set'),
+                           stream='set', history=hist, set=new_line, expected=show(r['spec']))
+            try:
+                obj.set(new_line)
+                text = str(obj)
+            except Exception as e:
+                ctx.fail(f'C16|set|kw={kw}|raise', f'{cls}.set({new_line!r}) after {hist} raises {type(e).__name__}', dict(payload, actual=type(e).__name__))
+                break
+            got = dump_attrs(obj, attrs)
+            payload['actual'] = dict(attrs=got, text=text)
+            bad = False
+            for a in attrs:
+                if not meets(got[a], r['spec'][a]):
+                    sv = r['spec'][a]
+                    how = 'given' if 'given' in sv else 'omitted'
+                    ctx.fail(f'C16|set|kw={kw}|attr={a}|{how}', f'{hist} then {cls}.set({new_line!r}): {a} is {got[a]}, the syntax says {how} {show(sv[how])}', payload)
+                    bad = True
+            toks = tokens_of(text)
+            want = denote(sp, st['ps'])
+            if [t.upper() for t in text.split()[:1]] != [kw] or toks is None or len(toks) not in sp['forms'] or not same_denotation(denote(sp, toks), want):
+                ctx.fail(f'C16|set|kw={kw}|text', f'{hist} then {cls}.set({new_line!r}): the written text is {text!r}, which does not denote {want}', payload)
+                bad = True
+            if bad:
+                break
 
 
 def eval_ls(ctx, syn, cases):
@@ -450,7 +632,7 @@ def eval_ls(ctx, syn, cases):
     ans = ctx.driver.batch([dict(p='C16', op='ls_set', cgls=c['kw'] == 'CGLS', ps=c['ps'], n=c['n']) for c in cases])
     for case, r in zip(cases, ans):
         kw = case['kw']
-        shx, obj, reached = read_obj(dict(kw=kw, ps=case['ps']))
+        shx, obj, reached = read_obj(dict(kw=kw, ps=case['ps'], lex=case.get('lex')))
         ctx.count(['ls', case], nontrivial=len(case['ps']) > 1, sample=dict(stream='ls', line=line_of(case), n=case['n'], via=case['via']),
                   tags=['ls', f'kw={kw}', f'form={len(case["ps"])}', 'via=' + case['via'], 'nrf=0' if case['ps'][1:2] == [0] else 'nrf!=0'])
         payload = dict(case=dict(case, stream='ls'), stream='ls', line=line_of(case), expected=r.get('spec'), model=r.get('tokens'))
@@ -470,7 +652,7 @@ def eval_ls(ctx, syn, cases):
         toks = tokens_of(text)
         form = f'form={len(case["ps"])}|' + ('nrf=0' if case['ps'][1:2] == [0] else 'nrf!=0')
         den = None if toks is None or not 1 <= len(toks) <= 3 else [int(x) for x in (toks + [0, 0])[:3]]
-        if text.split()[:1] != [kw] or den != r['spec'] or num != case['n']:
+        if [t.upper() for t in text.split()[:1]] != [kw] or den != r['spec'] or num != case['n']:
             ctx.fail(f'C16|ls|{form}|text', f'`{line_of(case)}` then number = {case["n"]}: written text {text!r} denotes {den}, expected {r["spec"]}', payload)
         elif toks is not None and [int(x) for x in toks] != r['tokens']:
             ctx.fail(f'C16|ls|{form}|model', f'`{line_of(case)}` then number = {case["n"]}: text {text!r}, model prints {r["tokens"]}', payload, kind='correspondence')
@@ -486,8 +668,8 @@ def eval_wght(ctx, syn, cases):
         return [d[k] for k in 'abcdef']
     ans = ctx.driver.batch([dict(p='C16', op='wght', cur=six(c['cur']), sug=six(c['sug'])) for c in cases])
     for case, r in zip(cases, ans):
-        text, _ = render(dict(kw='WGHT', ps=case['cur']))
-        text += line_of(dict(kw='WGHT', ps=case['sug'])) + '\n'
+        text, _ = render(dict(kw='WGHT', ps=case['cur'], lex=case.get('lex')))
+        text += line_of(dict(kw='WGHT', ps=case['sug'], lex=case.get('lex2'))) + '\n'
         shx = Shelxfile()
         shx.read_string(text)
         special = len(case['sug']) == 6 and abs(sum(case['sug'][2:]) - 0.33333) < 1e-12 and case['sug'][2:] != [0, 0, 0, 0.33333]
@@ -515,18 +697,20 @@ def run(ctx):
     syn = syntax(ctx)
     ctx.rule = ('every legal form (prefix of the parameter list) of every keyword of the syntax table, values pairwise distinct and '
                 'different from every default, restraints additionally after each of the six DEFS forms; distinct by (keyword, values, '
-                'DEFS values); non-trivial = the line has a parameter, or an omitted one with a documented default, or follows a DEFS. '
-                'Setter streams: Command.set between random forms, LSCycles.number/set_refine_cycles on every form incl. nrf = 0, '
+                'DEFS values, keyword case, number spelling); each form in canonical spelling, in lower case with exponent notation and in mixed case with '
+                'leading-dot / plus / trailing-dot / leading-zero spellings (DEFS line included); non-trivial = the line has a parameter, or an omitted one with a documented default, or follows a DEFS. '
+                'Setter streams: histories of 1-3 Command.set calls on one object between long and short forms, LSCycles.number/set_refine_cycles on every form incl. nrf = 0, '
                 'update_weight with 2- and 6-parameter schemes')
     ctx.assumptions = ['integer-kind parameters (mn, N, npeaks, nls …) are written as integers (hypothesis intsOK of table_attr_spec)',
-                       'numbers are written as plain decimals (no free-variable codes in instruction parameters)',
+                       'numbers are decimals in any free-format spelling (exponent, leading ./+, trailing ., leading 0); no free-variable codes in instruction parameters',
+                       'keyword case and number spelling are lexical: compared implementation vs spec only (the Lean model starts from the numeric values)',
                        'objects are observed where they replace their line in _reslist; AFIX/PART are followed by an atom and AFIX 0/PART 0']
     # broken table obligations name their failing form (DESIGN 4, step 6b): those forms are generated below in any case
     for kw, sp in syn.items():
         t = sp.get('table')
         if isinstance(t, dict) and not t['conforms']:
             ctx.note(f'slot table of {sp["cls"]} does not conform to the syntax of {kw}: first mismatch {t["first_mismatch"]}')
-    reps = ctx.budget(2, 30)
+    reps = ctx.budget(3, 30)
     cases = []
     for kw, sp in syn.items():
         forms = sp['forms'] if sp['finite'] else [0] * 3
@@ -535,29 +719,60 @@ def run(ctx):
             if kw in RESTRAINTS:
                 dforms += list(range(6)) if (ctx.tier == 'thorough' or ctx.escalated) else [0, ctx.rng.randint(1, 4), 5]
             for k in dforms:
-                for _ in range(reps):
+                for rep in range(reps):
                     ps = gen_values(ctx.rng, kw, sp, n)
                     c = dict(kw=kw, ps=ps, stream='attrs')
                     if k is not None:
                         c['defs'] = gen_defs(ctx.rng, k)
                     if kw in NAMES:
                         c['names'] = NAMES[kw]
+                    lex = make_lex(ctx.rng, rep, ps, c.get('defs'))
+                    if lex:
+                        c['lex'] = lex
                     cases.append(c)
     # setters (Restraint classes have no set())
     settable = [kw for kw, sp in syn.items() if sp['finite'] and kw not in RESTRAINTS and kw not in ('EADP', 'EXYZ', 'DEFS', 'CELL', 'ZERR', 'LATT', 'L.S.', 'CGLS', 'AFIX', 'PART')]
     for kw in settable:
         sp = syn[kw]
-        for _ in range(ctx.budget(2, 40)):
-            n1, n2 = ctx.rng.choice(sp['forms']), ctx.rng.choice(sp['forms'])
-            cases.append(dict(kw=kw, ps=gen_values(ctx.rng, kw, sp, n1), ps2=gen_values(ctx.rng, kw, sp, n2), stream='set'))
+        forms = sp['forms']
+        for rep in range(ctx.budget(3, 40)):
+            # histories on one object: start from a long form, then shorter and longer texts in turn, so that every
+            # omitted parameter has to fall back to its default whatever the object held before
+            n0 = max(forms) if rep % 2 == 0 else ctx.rng.choice(forms)
+            nsteps = 1 if rep == 1 else ctx.rng.choice([2, 3])
+            seq = [min(forms) if rep == 0 else ctx.rng.choice(forms)]
+            while len(seq) < nsteps:
+                seq.append(ctx.rng.choice(forms))
+            c = dict(kw=kw, ps=gen_values(ctx.rng, kw, sp, n0), stream='set', steps=[])
+            l0 = make_lex(ctx.rng, (rep + 1) % 4, c['ps'])
+            if l0:
+                c['lex'] = l0
+            for i, n in enumerate(seq):
+                ps = gen_values(ctx.rng, kw, sp, n)
+                st = dict(ps=ps)
+                lx = make_lex(ctx.rng, (rep + i) % 4, ps)
+                if lx:
+                    st['lex'] = lx
+                c['steps'].append(st)
+            cases.append(c)
     for kw in ('L.S.', 'CGLS'):
         for n in (1, 2, 3):
             for via in ('number', 'set_refine_cycles'):
-                for _ in range(ctx.budget(4, 60)):
-                    cases.append(dict(kw=kw, ps=gen_values(ctx.rng, kw, syn[kw], n), n=ctx.rng.choice([1, 3, 4, 12, 50, -1]), via=via, stream='ls'))
+                for rep in range(ctx.budget(4, 60)):
+                    c = dict(kw=kw, ps=gen_values(ctx.rng, kw, syn[kw], n), n=ctx.rng.choice([1, 3, 4, 12, 50, -1]), via=via, stream='ls')
+                    lex = make_lex(ctx.rng, rep % 4, c['ps'])
+                    if lex:
+                        c['lex'] = lex
+                    cases.append(c)
     spw = syn['WGHT']
-    for _ in range(ctx.budget(10, 300)):
-        cases.append(dict(cur=gen_values(ctx.rng, 'WGHT', spw, ctx.rng.choice([2, 2, 6])), sug=gen_values(ctx.rng, 'WGHT', spw, ctx.rng.choice([2, 2, 6])), stream='wght'))
+    for rep in range(ctx.budget(10, 300)):
+        c = dict(cur=gen_values(ctx.rng, 'WGHT', spw, ctx.rng.choice([2, 2, 6])), sug=gen_values(ctx.rng, 'WGHT', spw, ctx.rng.choice([2, 2, 6])), stream='wght')
+        l1, l2 = make_lex(ctx.rng, rep % 4, c['cur']), make_lex(ctx.rng, (rep + 2) % 4, c['sug'])
+        if l1:
+            c['lex'] = l1
+        if l2:
+            c['lex2'] = l2
+        cases.append(c)
     # the one point the WGHT printer's shortcut excludes (hypothesis of wght_roundtrip): c+d+e+f equal to the default sum
     cases.append(dict(cur=[0.05, 0.7], sug=[0.06, 0.8, 0.0, 0.0, 0.1, 0.23333], stream='wght'))
     for i in range(0, len(cases), 400):
